@@ -281,7 +281,7 @@ def make(spec):
             s = axi_full.AXIInterface(data_width=8 * L, address_width=ADDRW, id_width=1)
             mem = _axi_mem(top, L, img)
             top.submodules += axi_full_to_axi_lite.AXILite2AXI(m, s)
-            _axi_shim(top, s, mem, gates, None)
+            _axi_shim(top, s, mem, gates, None, wbuf=bool(spec.get("wbuf")), abuf=bool(spec.get("abuf")))
             souts = _axi_souts(s, SL, True)
         elif kind == "chain_axil_wb":
             # what SoCBusHandler.add_adapter really builds for an AXI-Lite master of 8*L bits on a
@@ -308,7 +308,7 @@ def make(spec):
             s = axi_full.AXIInterface(data_width=8 * L, address_width=ADDRW, id_width=1)
             mem = _axi_mem(top, L, img)
             top.submodules += axi_full_to_wishbone.Wishbone2AXI(m, s, base_address=spec.get("base", 0))
-            _axi_shim(top, s, mem, gates, None)
+            _axi_shim(top, s, mem, gates, None, wbuf=bool(spec.get("wbuf")), abuf=bool(spec.get("abuf")))
             souts = _axi_souts(s, SL, True)
         elif kind == "chain_wb_axil":
             # Wishbone master of 8*L bits on an AXI-Lite bus of 8*SL bits: wishbone.Converter, word->byte
@@ -317,7 +317,7 @@ def make(spec):
             s = _soc_adapter(top, "axi-lite", 8 * SL, m, "m2s")
             assert isinstance(s, axi_lite.AXILiteInterface) and s.data_width == 8 * SL
             mem = _axil_sram(top, SL, img, addrw=32)
-            _axi_shim(top, s, mem, gates, None)
+            _axi_shim(top, s, mem, gates, None, wbuf=bool(spec.get("wbuf")), abuf=bool(spec.get("abuf")))
             souts = _axi_souts(s, SL, False)
         else:
             raise ValueError(kind)
@@ -374,7 +374,8 @@ def tla_cfg(spec):
     img = image(spec)
     mo = {"axil": 7 + L, "wb": 2 + L, "axi": 10 + L, "ahb": 2 + L}[mp]
     return {"mp": mp, "sp": slave_proto(spec), "lanes": L, "words": spec["words"], "init": img,
-            "k": spec.get("k", 1), "serial": int(spec.get("serial", 0)), "awfirst": int(spec.get("awfirst", 0)), "dirs": spec.get("dirs", "rw"), "walpha": walpha(spec), "wwords": list(spec.get("wwords", range(spec["words"]))), "rsels": list(spec.get("rsels", [2 ** L - 1])),
+            "k": spec.get("k", 1), "serial": int(spec.get("serial", 0)), "awfirst": int(spec.get("awfirst", 0)), "dirs": spec.get("dirs", "rw"), "walpha": walpha(spec), "wwords": list(spec.get("wwords", range(spec["words"]))),
+            "rwords": list(spec.get("rwords", range(spec["words"]))), "rsels": list(spec.get("rsels", [2 ** L - 1])),
             "sizes": list(spec.get("sizes", [0, 1, 2])),
             "addrs": list(spec.get("addrs", range(spec["words"] * L))), "datas": list(spec.get("datas", [5, 10])),
             "plans": [list(p) for p in spec.get("plans", [[0, 0, 1]])],
@@ -540,8 +541,10 @@ class Hint:
 
 # ------------------------------------------------------------------------------------ configurations
 def configs(tier):
-    """(spec, cfg) list.  live=1: explored with the liveness property (kept small: constant memory or few
-    inputs); case: names the input class of the configuration (part of a known finding's signature)."""
+    """(spec, cfg) list.
+    live=1 : explored with the liveness property too (kept small: constant memory, few addresses);
+    case   : names the input class of the configuration (part of a known finding's signature);
+    alone=1: own TLC batch (expected to hit a listed finding, or big); cost: batching weight."""
     out = []
     T = tier == "thorough"
 
@@ -550,86 +553,106 @@ def configs(tier):
     G1 = [1, 1, 1, 1, 1]          # one gate for all channels
     GW = [1, 2, 3, 0, 0]          # independent AW / W / B gates (write direction)
     GR = [0, 0, 0, 1, 2]          # independent AR / R gates (read direction)
-    G5 = [1, 2, 3, 4, 5]
+    G3 = [1, 1, 2, 2, 2]          # requests / responses
+    G4 = [1, 2, 3, 4, 4]
     WB = [1, 0, 0, 0, 0]          # Wishbone shim: the go gate
+    LV = dict(datas=[0], init="zero", live=1)                 # liveness runs: constant memory ...
+    A0 = dict(wwords=[0], rwords=[0])                          # ... and one address
     # ---------------------------------------------------------------- AXI-Lite SRAM
-    add(mp="axil", kind="sram", lanes=1, words=2, live=1)
-    add(mp="axil", kind="sram", lanes=1, words=2, k=2, live=1)
+    add(mp="axil", kind="sram", lanes=1, words=2)
+    add(mp="axil", kind="sram", lanes=1, words=2, **LV, **A0)
+    add(mp="axil", kind="sram", lanes=1, words=2, k=2, strbs=[1], cost=2)
     add(mp="axil", kind="sram", lanes=2, words=2, read_only=1, init="alt", strbs=[3, 1], datas=[3], live=1)
     if T:
-        add(mp="axil", kind="sram", lanes=2, words=2, init="alt", datas=[1, 2])
-        add(mp="axil", kind="conv", lanes=1, words=2, live=1, gfree=G1)
+        add(mp="axil", kind="sram", lanes=2, words=2, init="alt", datas=[1, 2], alone=1)
+        add(mp="axil", kind="sram", lanes=1, words=2, k=2, **LV, cost=3)
+        add(mp="axil", kind="conv", lanes=1, words=2, gfree=G1)
     # ---------------------------------------------------------------- AXI-Lite -> Wishbone
-    add(mp="axil", kind="axil2wb", lanes=1, words=2, gfree=WB, live=1)
+    add(mp="axil", kind="axil2wb", lanes=1, words=2, gfree=WB, cost=2)
+    add(mp="axil", kind="axil2wb", lanes=1, words=2, gfree=WB, **LV, **A0)
     add(mp="axil", kind="axil2wb", lanes=1, words=2, gfree=WB, base=1, serial=1)
     add(mp="axil", kind="axil2wb", lanes=2, words=2, gfree=WB, base=0x40, serial=1, init="alt", strbs=[3, 2, 0], datas=[1, 2])
-    add(mp="axil", kind="axil2wb", lanes=1, words=2, gfree=WB, bad=1, datas=[0], init="zero", case="wishbone-err", live=1)
+    add(mp="axil", kind="axil2wb", lanes=1, words=2, gfree=WB, bad=1, **LV, case="wishbone-err", alone=1)
     if T:
-        add(mp="axil", kind="axil2wb", lanes=1, words=2, gfree=WB, k=2, idle_addr=1, live=1)
+        add(mp="axil", kind="axil2wb", lanes=1, words=2, gfree=WB, k=2, idle_addr=1, strbs=[1], cost=3)
+        add(mp="axil", kind="axil2wb", lanes=1, words=2, gfree=WB, **LV, cost=2)
         add(mp="axil", kind="axil2wb", lanes=4, words=2, gfree=WB, serial=1, strbs=[15, 2, 0], datas=[5, 10], wwords=[1])
     # ---------------------------------------------------------------- AXI-Lite down converter
-    add(mp="axil", kind="down", ratio=2, lanes=2, words=2, gfree=G1, strbs=[3, 1, 0], datas=[1, 2], serial=1, case="low-lanes-enabled")
-    add(mp="axil", kind="down", ratio=2, lanes=2, words=2, gfree=GW, dirs="w", datas=[0], init="zero", live=1, case="low-lanes-disabled")
-    add(mp="axil", kind="down", ratio=2, lanes=2, words=2, gfree=GW, dirs="w", strbs=[3, 1, 0], datas=[0], init="zero", live=1,
+    add(mp="axil", kind="down", ratio=2, lanes=2, words=2, gfree=G1, strbs=[3, 1, 0], datas=[1, 2], serial=1, cost=2,
         case="low-lanes-enabled")
+    add(mp="axil", kind="down", ratio=2, lanes=2, words=2, gfree=GW, dirs="w", **LV, case="low-lanes-disabled", alone=1)
+    add(mp="axil", kind="down", ratio=2, lanes=2, words=2, gfree=GW, dirs="w", strbs=[3, 1, 0], **LV, case="low-lanes-enabled")
     add(mp="axil", kind="down", ratio=2, lanes=2, words=2, gfree=GR, dirs="r", live=1)
-    add(mp="axil", kind="down", ratio=2, lanes=2, words=2, gfree=G1, strbs=[3, 1], datas=[0], init="zero", bad=1, live=1,
-        case="low-lanes-enabled")
+    add(mp="axil", kind="down", ratio=2, lanes=2, words=2, gfree=G1, strbs=[3, 1], bad=1, serial=1, **LV, case="low-lanes-enabled")
     if T:
-        add(mp="axil", kind="down", ratio=2, lanes=2, words=2, gfree=G1, strbs=[3, 1, 0], datas=[0], init="zero", live=1,
-            case="low-lanes-enabled")
+        add(mp="axil", kind="down", ratio=2, lanes=2, words=2, gfree=G1, strbs=[3, 1, 0], **LV, case="low-lanes-enabled", cost=2)
         add(mp="axil", kind="down", ratio=4, lanes=4, words=2, gfree=G1, strbs=[15, 1, 3, 0], datas=[5, 10], wwords=[1], serial=1,
-            case="low-lanes-enabled")
+            case="low-lanes-enabled", cost=3)
         add(mp="axil", kind="down", ratio=4, lanes=4, words=2, gfree=GR, dirs="r", live=1)
-        add(mp="axil", kind="down", ratio=2, lanes=2, words=2, gfree=GW, dirs="w", strbs=[3, 1, 0], datas=[0], init="zero", live=1,
-            wbuf=1, abuf=1, case="low-lanes-enabled")
+        add(mp="axil", kind="down", ratio=2, lanes=2, words=2, gfree=GW, dirs="w", strbs=[3, 1, 0], **LV, wbuf=1, abuf=1,
+            case="low-lanes-enabled", cost=3)
     # ---------------------------------------------------------------- AXI-Lite up converter
-    add(mp="axil", kind="up", ratio=2, lanes=1, words=4, gfree=G1, serial=1, awfirst=1, case="address-first")
-    add(mp="axil", kind="up", ratio=2, lanes=1, words=4, gfree=G1, datas=[0], init="zero", awfirst=1, live=1, case="address-first")
-    add(mp="axil", kind="up", ratio=2, lanes=1, words=4, gfree=G1, datas=[0], init="zero", live=1, case="data-before-address")
-    add(mp="axil", kind="up", ratio=2, lanes=1, words=4, strbs=[1], datas=[1], init="zero", k=2, awfirst=1, case="two-outstanding")
+    add(mp="axil", kind="up", ratio=2, lanes=1, words=4, gfree=G1, serial=1, awfirst=1, case="address-first", cost=3)
+    add(mp="axil", kind="up", ratio=2, lanes=1, words=4, gfree=G1, dirs="w", awfirst=1, wwords=[0, 1], **LV, case="address-first")
+    add(mp="axil", kind="up", ratio=2, lanes=1, words=4, gfree=G1, dirs="r", rwords=[0, 1], live=1, case="address-first")
+    add(mp="axil", kind="up", ratio=2, lanes=1, words=4, gfree=G1, wwords=[0, 1], rwords=[0], **LV, case="data-before-address", alone=1)
+    add(mp="axil", kind="up", ratio=2, lanes=1, words=4, strbs=[1], datas=[1], init="zero", k=2, awfirst=1, wwords=[0], rwords=[0, 1],
+        case="two-outstanding", alone=1)
+    if T:
+        add(mp="axil", kind="up", ratio=2, lanes=1, words=4, gfree=G1, awfirst=1, wwords=[0, 1], rwords=[0, 1], **LV,
+            case="address-first", cost=3)
     # ---------------------------------------------------------------- AXI-Lite -> CSR
-    add(mp="axil", kind="axil2csr", lanes=1, words=2, live=1)
+    add(mp="axil", kind="axil2csr", lanes=1, words=2)
+    add(mp="axil", kind="axil2csr", lanes=1, words=2, **LV, **A0)
     if T:
         add(mp="axil", kind="axil2csr", lanes=4, words=2, strbs=[15, 0], datas=[5, 10], serial=1)
-        add(mp="axil", kind="axil2csr", lanes=1, words=2, k=2, live=1)
+        add(mp="axil", kind="axil2csr", lanes=1, words=2, k=2, strbs=[1], cost=2)
     # ---------------------------------------------------------------- AXI-Lite -> AXI
     add(mp="axil", kind="axil2axi", lanes=1, words=2, gfree=G1, serial=1)
-    add(mp="axil", kind="axil2axi", lanes=1, words=2, gfree=[1, 2, 3, 3, 3], datas=[0], init="zero", live=1)
+    add(mp="axil", kind="axil2axi", lanes=1, words=2, gfree=G3, **LV, **A0)
+    if T:
+        add(mp="axil", kind="axil2axi", lanes=1, words=2, gfree=[1, 2, 3, 3, 3], **LV, cost=3)
     # ---------------------------------------------------------------- Wishbone -> AXI-Lite / AXI
-    add(mp="wb", kind="wb2axil", lanes=1, words=2, gfree=G5, live=1)
+    add(mp="wb", kind="wb2axil", lanes=1, words=2, gfree=G4, live=1)
     add(mp="wb", kind="wb2axil", lanes=2, words=2, gfree=G1, init="alt", datas=[1, 2])
-    add(mp="wb", kind="wb2axil", lanes=1, words=2, gfree=G1, bad=1, datas=[0], init="zero", live=1)
+    add(mp="wb", kind="wb2axil", lanes=1, words=2, gfree=GW, wbuf=1, live=1)      # partner accepts W before AW
+    add(mp="wb", kind="wb2axil", lanes=1, words=2, gfree=G1, bad=1, **LV)
     add(mp="wb", kind="wb2axil", lanes=4, words=2, dirs="r", base=4, live=1)
     add(mp="wb", kind="wb2axil", lanes=4, words=2, dirs="r", base=0x40, live=1)
-    add(mp="wb", kind="wb2axil", lanes=8, words=2, dirs="r", base=8, live=1, case="base-address-64bit")
-    add(mp="wb", kind="wb2axi", lanes=1, words=2, gfree=G5, live=1)
+    add(mp="wb", kind="wb2axil", lanes=8, words=2, dirs="r", base=8, live=1, case="base-address-64bit", alone=1)
+    add(mp="wb", kind="wb2axi", lanes=1, words=2, gfree=G4, live=1)
     if T:
-        add(mp="wb", kind="wb2axil", lanes=1, words=2, gfree=GW, wbuf=1, abuf=1, live=1)
+        add(mp="wb", kind="wb2axil", lanes=1, words=2, gfree=[1, 2, 3, 4, 5], live=1)
+        add(mp="wb", kind="wb2axil", lanes=1, words=2, gfree=G4, wbuf=1, abuf=1, live=1)
+        add(mp="wb", kind="wb2axi", lanes=1, words=2, gfree=GW, wbuf=1, live=1)
         add(mp="wb", kind="wb2axil", lanes=4, words=2, gfree=G1, strbs=[15, 2, 0], datas=[5, 10], wwords=[1], base=4)
         add(mp="wb", kind="wb2axi", lanes=2, words=2, gfree=G1, init="alt", datas=[1, 2])
+        add(mp="wb", kind="wb2axi", lanes=1, words=2, gfree=[1, 2, 3, 4, 5], live=1)
     # ---------------------------------------------------------------- adapter chains of SoCBusHandler.add_adapter
-    add(mp="wb", kind="chain_wb_axil", lanes=4, slanes=8, words=4, wwords=[0, 3], strbs=[15, 2], datas=[5, 10], gfree=G1, live=1)
+    add(mp="wb", kind="chain_wb_axil", lanes=4, slanes=8, words=4, wwords=[0, 3], strbs=[15, 2], datas=[5, 10], gfree=G1, live=1, cost=2)
     if T:
         add(mp="axil", kind="chain_axil_wb", lanes=8, slanes=4, words=2, wwords=[1], strbs=[255, 15, 1], datas=[0x55, 0xaa],
-            gfree=WB, serial=1, live=1, case="low-lanes-enabled")
+            gfree=WB, serial=1, live=1, case="low-lanes-enabled", cost=3)
     # ---------------------------------------------------------------- AXI -> AXI-Lite / Wishbone
-    P3 = [[0, 0, 1], [1, 1, 1], [2, 3, 2]]
+    P2 = [[0, 0, 1], [0, 1, 1]]
+    P5 = [[0, 0, 1], [1, 0, 1], [0, 1, 1], [1, 1, 2], [0, 1, 0]]
     P7 = [[0, 0, 1], [3, 0, 1], [1, 1, 1], [1, 2, 1], [2, 1, 0], [1, 1, 2], [2, 3, 2]]
-    add(mp="axi", kind="axi2axil", lanes=1, words=4, serial=1, plans=P3, gfree=G1)
-    add(mp="axi", kind="axi2axil", lanes=1, words=2, datas=[0], init="zero", plans=[[0, 0, 1], [0, 1, 1]], gfree=[1, 2, 3, 3, 3], live=1)
-    add(mp="axi", kind="axi2axil", lanes=1, words=2, datas=[0], strbs=[1], init="zero", serial=1, plans=[[0, 0, 1], [1, 0, 1], [0, 1, 1]],
-        gfree=G1, bad=1, live=1, case="axi-lite-error")
-    add(mp="axi", kind="axi2wb", lanes=1, words=4, serial=1, plans=P3, gfree=WB)
+    add(mp="axi", kind="axi2axil", lanes=1, words=2, serial=1, plans=P5, gfree=G1, cost=3)
+    add(mp="axi", kind="axi2axil", lanes=1, words=2, plans=P2, gfree=G3, strbs=[1], **LV, cost=3)
+    add(mp="axi", kind="axi2axil", lanes=1, words=2, strbs=[1], serial=1, plans=[[0, 0, 1], [1, 0, 1], [0, 1, 1]], gfree=G1, bad=1,
+        **LV, case="axi-lite-error", alone=1)
+    add(mp="axi", kind="axi2wb", lanes=1, words=2, serial=1, plans=P5, gfree=WB, cost=3)
     if T:
-        add(mp="axi", kind="axi2axil", lanes=1, words=4, serial=1, plans=P7, gfree=G1, big=1)
-        add(mp="axi", kind="axi2wb", lanes=1, words=4, serial=1, plans=P7, gfree=WB, big=1)
-        add(mp="axi", kind="axi2wb", lanes=1, words=2, datas=[0], init="zero", plans=[[0, 0, 1], [0, 1, 1]], gfree=WB, live=1)
-        add(mp="axi", kind="axi2axil", lanes=2, words=2, serial=1, init="alt", strbs=[3, 2, 0], datas=[1, 2], plans=[[0, 0, 1], [0, 1, 1], [1, 1, 2]],
-            gfree=G1)
+        add(mp="axi", kind="axi2axil", lanes=1, words=4, serial=1, plans=P7, gfree=G1, alone=1)
+        add(mp="axi", kind="axi2wb", lanes=1, words=4, serial=1, plans=P7, gfree=WB, alone=1)
+        add(mp="axi", kind="axi2wb", lanes=1, words=2, plans=P2, gfree=WB, strbs=[1], **LV, cost=3)
+        add(mp="axi", kind="axi2axil", lanes=1, words=2, plans=P2, gfree=[1, 2, 3, 3, 3], **LV, alone=1)
+        add(mp="axi", kind="axi2axil", lanes=1, words=2, plans=P2, gfree=GW, dirs="w", strbs=[1], wbuf=1, abuf=1, **LV, cost=3)
+        add(mp="axi", kind="axi2axil", lanes=2, words=2, serial=1, init="alt", strbs=[3, 2, 0], datas=[1, 2],
+            plans=[[0, 0, 1], [0, 1, 1], [1, 1, 2]], gfree=G1, alone=1)
     # ---------------------------------------------------------------- AHB -> Wishbone
-    add(mp="ahb", kind="ahb2wb", lanes=4, words=2, datas=[5, 10], sizes=[0], addrs=[0, 1, 3, 4], gfree=WB, live=1)
-    add(mp="ahb", kind="ahb2wb", lanes=4, words=2, datas=[5, 10], sizes=[1, 2], addrs=[0, 2, 4, 6], gfree=WB)
+    add(mp="ahb", kind="ahb2wb", lanes=4, words=2, datas=[5, 10], sizes=[0], addrs=[0, 1, 3, 4], gfree=WB, live=1, cost=2)
+    add(mp="ahb", kind="ahb2wb", lanes=4, words=2, datas=[5, 10], sizes=[1, 2], addrs=[0, 2, 4, 6], gfree=WB, cost=3)
     add(mp="ahb", kind="ahb2wb", lanes=4, words=2, datas=[5], sizes=[2], addrs=[0, 4], init="zero", gfree=WB, bad=1, live=1,
-        case="wishbone-err")
+        case="wishbone-err", alone=1)
     return out
